@@ -31,3 +31,10 @@ package crashmonitor
 //@   loop 1: invariant 0 <= i && i <= len(lines)
 //@   loop 1: decreases len(lines)-i
 //@   modifies nothing
+
+// getPC (the second function literal of parseStackPCs): the program counter is
+// read from the text after the LAST " pc=" of the line, the position of the
+// runtime's pc field; earlier text of the line (the file name) cannot move it.
+//@ contract parseStackPCs$2
+//@   at call ParseUint#1: assert strings.LastIndex(line, " pc=") >= 0 && arg0 == line[strings.LastIndex(line, " pc=")+4:]
+//@   modifies nothing
